@@ -54,8 +54,9 @@ class Ctx:
                 self.obligations.append({'name': nm, 'kind': 'theorem', 'ok': False, 'detail': 'build failed at ' + where})
             self.proof_broken('coq build failed at ' + where, out[-2500:])
             return False
-        bad = build.audit_sources()
-        self.obligations.append({'name': 'source audit (no Admitted/Axiom/Parameter/... in development)', 'kind': 'audit',
+        bad = build.audit_sources(targets)
+        self.closure = build.closure_files(targets)
+        self.obligations.append({'name': 'source audit (no Admitted/Axiom/Parameter/... in the %d files of the closure)' % len(self.closure), 'kind': 'audit',
                                  'ok': not bad, 'detail': '; '.join(bad[:5])})
         if bad:
             self.proof_broken('forbidden construct in Coq development', '\n'.join(bad))
